@@ -118,7 +118,11 @@ func runAcceptSession(ss acceptSession, fail func(kind, what string)) {
 		}
 		return
 	}
-	for i := 0; i < ss.Clients && !blocked; i++ {
+	nclients := ss.Clients
+	if ss.Keep >= ss.MaxConn {
+		nclients = ss.MaxConn // every slot stays taken: the connection after that is the one that must be refused (below)
+	}
+	for i := 0; i < nclients && !blocked; i++ {
 		var p pair
 		var err error
 		deadline := time.Now().Add(slotWait)
@@ -137,7 +141,7 @@ func runAcceptSession(ss acceptSession, fail func(kind, what string)) {
 			// and run its onClose); it is not legitimate seconds later
 			if strings.Contains(err.Error(), "too many connections") || strings.Contains(err.Error(), "timed out waiting for incoming client connection") {
 				if time.Now().Before(deadline) {
-					time.Sleep(20 * time.Millisecond)
+					time.Sleep(100 * time.Millisecond)
 					continue
 				}
 				fail("accept-blocked", fmt.Sprintf("client connection #%d (of %d) still refused %v after every connection but %d was closed (MaxConnections %d): %v", i+1, ss.Clients, slotWait, len(kept), ss.MaxConn, err))
